@@ -84,3 +84,9 @@ Example C16_example_other_majority :
   map_valid blk_other_majority = true /\ importer_accepts blk_other_majority = false
   /\ validator_accepts blk_other_majority = false.
 Proof. vm_compute. repeat split; reflexivity. Qed.
+
+(* a structurally valid ACCEPT voteproof without majority (DRAW) at the manifest's point is refused by both *)
+Example C16_example_accept_draw :
+  map_valid blk_accept_draw = true /\ importer_accepts blk_accept_draw = false
+  /\ validator_accepts blk_accept_draw = false.
+Proof. vm_compute. repeat split; reflexivity. Qed.
